@@ -141,6 +141,7 @@ class SetState(Contract):
     cases = {k: v for k, v in PAIRS.items() if v[0] not in ("NOT READY TO SWITCH ON", "FAULT REACTION ACTIVE")}
     max_paths = 400
     frozen_time = True
+    clock_patience = 200        # a conformant drive reacts at once: 200 clock reads without completion = stalled
 
     def setup(self, w, case):
         frm, tgt = case
@@ -217,6 +218,7 @@ class SetStatePdo(Contract):
              if v[0] not in ("NOT READY TO SWITCH ON", "FAULT REACTION ACTIVE") for per in (False, True)}
     max_paths = 600
     frozen_time = True
+    clock_patience = 200
 
     def setup(self, w, case):
         (frm, tgt), periodic = case
@@ -261,3 +263,65 @@ class OpModeSet(Contract):
         return And(s.raised(TypeError), len(writes) == 0)
 
     ensures = {"unsupported-refused_supported-written-as-code": lambda s: OpModeSet.ok(s)}
+
+
+def mk_node_with_mode_pdo(w, periodic):
+    """6060h in an RPDO, 6061h in a TPDO (no SDO objects for them: any SDO access would be a KeyError); the cached
+    display is the drive's current one (as after setup_pdos and one reception)"""
+    codes = sorted(set(cia402.MODE_CODE.values()))
+    cur = w.choose(w.int("displayed_mode", min(codes), max(codes)), codes)
+    sup = w.int("supported", 0, 0xFFFFFFFF)
+    drive = w.obj("env.drive402:Drive", state=1, auto=False, mode=cur, supported=sup)
+    node = w.obj(NODE, id=1, tpdo_values=w.dict({0x6061: cur}), tpdo_pointers=w.dict({}), rpdo_pointers=w.dict({}),
+                 sdo=w.dict({0x6502: w.obj("env.drive402:SupportedVar", drive=drive)}))
+    link = w.obj("env.drive402:ModeLink", drive=drive, node=node, periodic=periodic, code=0, pending=False, display=cur)
+    tv = w.obj("env.drive402:ModeTpdoVar", link=link, pdo_parent=w.obj("env.drive402:ModeTpdoMap", link=link))
+    rv = w.obj("env.drive402:ModeRpdoVar", link=link, pdo_parent=w.obj("env.drive402:ModeRpdoMap", link=link))
+    w.setfield(node, "tpdo_pointers", w.dict({0x6061: tv}))
+    w.setfield(node, "rpdo_pointers", w.dict({0x6060: rv}))
+    w.pre.update(drive=drive, node=node, link=link, sup=sup, cur=cur)
+    return node, drive
+
+
+@contract
+class OpModePdo(Contract):
+    """`node.op_mode = mode` with 6060h carried by an RPDO and 6061h by a TPDO (event-driven or periodic; env/drive402.py
+    ModeLink): an unsupported mode is refused with nothing written or transmitted; a supported one reaches the drive as
+    its CiA 402 code (nothing else is ever written or transmitted), and the setter returns with the drive in that mode and
+    the cached display equal to that code"""
+    target = "canopen.profiles.p402:BaseNode402.op_mode.setter"
+    id = "OpModePdo"
+    functions = ("canopen.profiles.p402:BaseNode402.is_op_mode_supported", "canopen.profiles.p402:BaseNode402.op_mode",
+                 "canopen.profiles.p402:BaseNode402.on_TPDOs_update_callback")
+    props = ("C19",)
+    cases = {"%s/%s" % (m, "periodic" if per else "event"): (m, per) for m in MODES for per in (False, True)}
+    xcheck = False
+    exits = ("return", "raise:TypeError")
+    frozen_time = True
+    clock_patience = 200
+
+    def setup(self, w, case):
+        mode, periodic = case
+        node, drive = mk_node_with_mode_pdo(w, periodic)
+        w.pre.update(mode=mode, periodic=periodic)
+        return Call(("setattr", node, "op_mode"), [mode])
+
+    @staticmethod
+    def ok(s):
+        mode = s.pre["mode"]
+        code = cia402.MODE_CODE[mode]
+        has = compare("!=", binop("&", s.pre["sup"], 1 << cia402.MODE_BIT[mode]), 0)
+        writes = [e for e in s.ev if e[0] == "mode"]
+        sent = [e for e in s.ev if e[0] == "rpdo"]
+        if not bool(has):
+            return And(s.raised(TypeError), len(writes) == 0, len(sent) == 0)
+        if not s.returned or len(writes) < 1:
+            return False
+        tv = s.w.get(s.pre["node"], "tpdo_values")
+        cached = (tv.d if hasattr(tv, "d") else tv).get(0x6061)
+        if cached is None:
+            return False
+        return And(And([compare("==", e[1], code) for e in writes]), compare("==", s.w.get(s.pre["drive"], "mode"), code),
+                   compare("==", cached, code), And([compare("==", e[1], code) for e in sent]))
+
+    ensures = {"unsupported-refused_supported-reaches-drive-as-code": lambda s: OpModePdo.ok(s)}
